@@ -94,10 +94,12 @@ GLOBAL_ACCESS = {
 
 
 class Builder:
-    def __init__(self, prog, cfg, tickmode="log"):
+    def __init__(self, prog, cfg, tickmode="log", share=False):
         self.prog = prog
         self.cfg = cfg
         self.tickmode = tickmode
+        self.share = share or bool(prog.get("share"))
+        self._shared = {}
         self.vars = {}
         self.subs = {}
         self.journal = None
@@ -186,6 +188,18 @@ class Builder:
 
     # ------------------------------------------------------------------
     def b(self, t):
+        if self.share:
+            # "share" mode: textually equal terms of one scope are built ONCE and the same Expr object is
+            # used at every occurrence (as a user does with `bump = i.store(...); If(c).Then(bump).Else(bump)`)
+            key = (id(self.scopes[-1]), repr(t))
+            e = self._shared.get(key)
+            if e is None:
+                e = self._build(t)
+                self._shared[key] = e
+            return e
+        return self._build(t)
+
+    def _build(self, t):
         k = t[0]
         m = getattr(self, "b_" + k, None)
         if m is not None:
